@@ -169,7 +169,7 @@ impl C12 {
             let cmd = format!("position fen {} moves {} {}", start_fen, prefix, s);
             sess.send(&cmd);
             sess.send("show");
-            let out = sess.read_until(|l| l.starts_with("   a b c") || l.starts_with("error: No game"), 5000);
+            let out = sess.read_until(|l| l.starts_with("   a b c") || l.starts_with("error: No game"), 15_000);
             let Some(lines) = out else {
                 let tr = sess.transcript_tail(12);
                 sess.kill();
